@@ -333,7 +333,7 @@ void AnalyzerInformation::reopen(const std::string &buildDir, const std::string 
     std::string content = iss.str();
     content.resize(content.find("</analyzerinfo>"));
 
-    VERIF_EVT("AiReopen", verif::kv("afile", analyzerInfoFile) + verif::kb("hasEnd", iss.str().find("</analyzerinfo>") != std::string::npos));
+    VERIF_EVT("AiReopen", verif::kv("afile", analyzerInfoFile) + verif::kv("src", sourcefile) + verif::kb("hasEnd", iss.str().find("</analyzerinfo>") != std::string::npos));
     mOutputStream.open(analyzerInfoFile, std::ios::trunc);
     mOutputStream << content;
 }
